@@ -33,7 +33,8 @@ Inductive ty : Type :=
 | TUnion (x : ext) (disc : ty) (cs : list (minfo * ty)).   (* member 0 (the discriminator) is implicit *)
 
 (* ------------------------------------------------------------------ values *)
-(* floats are their raw bits; Char8 is the Rust `char` (a scalar value); String a list of scalars *)
+(* floats are their raw bits; Char8 is the code point of the Rust `char` (a char8 value is one
+   octet, 0..255; the serializer truncates anything above); String a list of scalars *)
 Inductive val : Type :=
 | VP (k : sk) (z : Z)
 | VStr (s : list Z)
@@ -124,7 +125,7 @@ Definition ret (bs : list Z) (pos : Z) : res W := Ok (bs, pos + blen bs).
 Definition prim_bytes (k : sk) (z : Z) : list Z :=
   match k with
   | KBool => [if z =? 0 then 0 else 1]
-  | KChar8 => utf8_char z                      (* self.to_string().as_bytes() *)
+  | KChar8 => [z mod 256]                      (* write_byte(self as u32 as u8): truncation to one octet *)
   | _ => int_enc E (sk_bytes k) z
   end.
 (* Rule (2): ALIGN(O.ssize) ; ESWAP(AsBytes(O)) *)
@@ -410,9 +411,9 @@ Definition seek (pos n : Z) : dres unit :=
 Definition read_bytes (pos n : Z) : dres (list Z) :=
   if pos + n >? blen buf then DErr E_NED pos
   else DOk (firstn (Z.to_nat n) (skipn (Z.to_nat pos) buf)) (pos + n).
-(* V::align on the Reader: XCDR1 seek_padding(alignment), XCDR2 seek_padding(min(alignment, 4)) *)
+(* V::align on the Reader: seek_padding(min(alignment, MAXALIGN)): 8 for XCDR1, 4 for XCDR2 *)
 Definition dec_align (a pos : Z) : dres unit :=
-  seek pos (padlen pos (match V with V1 => a | V2 => Z.min a 4 end)).
+  seek pos (padlen pos (match V with V1 => Z.min a 8 | V2 => Z.min a 4 end)).
 
 Definition des_prim (k : sk) (pos : Z) : dres Z :=
   _ @ p <~ dec_align (sk_size k) pos ;;
